@@ -53,8 +53,13 @@ ASSUMPTIONS = [
 EPS64 = float(np.finfo(np.float64).eps)
 EPS32 = float(np.finfo(np.float32).eps)
 
-# worst measured  err / ((n+1) eps cond)  on the pinned tree, thorough tier, seeds 0..3  ->  K
-# (filled from C07_MEASURE runs; see the report)
+# MEASURED on the pinned tree (C07_MEASURE=<file> ./check C07 [--tier thorough], seeds 0..3, both tiers), worst
+# err / ((n+1) eps cond) over every family, order, point and input form:
+#   float64: 8.05 (laguerre), 7.9 (jacobi), <= 2 elsewhere;  float32: 6.5 (Qbfs), 5.0 (laguerre), <= 4.7 elsewhere  -> K = 256 (>= 32x)
+#   normalised Gram entries: <= 4.3e-11 (Gauss-Jacobi, beta = -0.9, N = 40; quadrature-node limited), <= 1e-13 elsewhere -> 2e-9 (47x)
+#   Zernike Gram: 8.7e-14 -> 1e-10;  Qbfs slope Gram: 3e-14 ij -> 1e-10 ij;  Q2d gradient Gram: 5.8e-12 ij -> 1e-9 ij (170x)
+#   Qbfs / Q2d structure residuals: 3e-14 / < 5e-14 of the coefficient scale -> 1e-11 / 1e-10
+# defects of interest (a wrong recurrence coefficient, a wrong norm) give 1e-6 .. 1 relative deviations.
 K_DEFAULT = 256
 
 _MEASURE = os.environ.get('C07_MEASURE')
@@ -597,7 +602,7 @@ def all_configs(B):
 
 
 def run_cache_sweep(case, seed, R):
-    cfgs = all_configs(case['bounds'])
+    cfgs = all_configs(bounds_for(case['tier']))
     order = case['order']
     if order == 'reverse':
         seq = cfgs[::-1]
@@ -634,16 +639,16 @@ def run_cache_sweep(case, seed, R):
 AB = [0, 0.5, -0.5, 1, 2, 4, -0.9, 2.5, 7.25, 0.3]
 
 
-def plan(tier, seed):
+def bounds_for(tier):
     q = tier == 'quick'
-    N = 12 if q else 40
-    NZ = 12 if q else 30
-    NQ = 12 if q else 25
-    N2 = 6 if q else 10
-    M2 = 6 if q else 10
-    lag = [0, 0.5, 2, -0.5, 3.7]
-    dick = [-1, 0, 1, 0.5]
-    pairs = [(a, b) for a in AB for b in AB]
+    return {'jacobi_pairs': [[a, b] for a in AB for b in AB], 'N': 12 if q else 40, 'NZ': 12 if q else 30, 'NQ': 12 if q else 25,
+            'N2': 6 if q else 10, 'M2': 6 if q else 10, 'lag': [0, 0.5, 2, -0.5, 3.7], 'dick': [-1, 0, 1, 0.5]}
+
+
+def plan(tier, seed):
+    bounds = bounds_for(tier)
+    N, NZ, NQ, N2, M2, lag, dick = (bounds[k] for k in ('N', 'NZ', 'NQ', 'N2', 'M2', 'lag', 'dick'))
+    pairs = [(a, b) for a, b in bounds['jacobi_pairs']]
     jac_cases = [{'alpha': a, 'beta': b, 'N': N} for a, b in pairs]
     cl_cases = [{'family': f, 'N': N} for f in CLASSICAL] + [{'family': 'laguerre', 'alpha': a, 'N': N} for a in lag] + \
         [{'family': f, 'alpha': a, 'N': N} for f in ('dickson1', 'dickson2') for a in dick]
@@ -666,8 +671,7 @@ def plan(tier, seed):
     alpha += [['zernike', n, m, norm] for (n, m) in ((4, 0), (4, 2), (6, 2), (6, -2), (5, 1), (7, 1), (7, 3), (8, 4), (12, 4)) for norm in (1, 0)]
     alpha += [['Q2d', n, m] for n in (0, 1, 2, 3, 4, 6) for m in (0, 1, 2, 3, -2, 4)]
     pair_cases = [{'first': a, 'second': b} for a in alpha for b in alpha]
-    bounds = {'jacobi_pairs': [[a, b] for a, b in pairs], 'N': N, 'NZ': NZ, 'NQ': NQ, 'N2': N2, 'M2': M2, 'lag': lag, 'dick': dick}
-    sweep_cases = [{'order': o, 'bounds': bounds} for o in ('forward', 'reverse', 'by_order')]
+    sweep_cases = [{'order': o, 'tier': tier} for o in ('forward', 'reverse', 'by_order')]
     nconf = len(all_configs(bounds))
     forms = 'every order is evaluated on a 1-D, a 2-D and a 3-D float64 array, as a python scalar at every point, and on a float32 array'
     return [
